@@ -6,3 +6,27 @@ Require Import Tables_overlapcallers.
 Lemma overlap_call_sites_ok :
   forallb (fun e => snd e) overlap_call_sites = true /\ List.length overlap_call_sites = 4.
 Proof. split; vm_compute; reflexivity. Qed.
+
+(* phase 3: the statements that touch the lint vector at each site, in source order, are exactly the
+   steps Model/C13Callers.v composes (wasm_lint: remove_overlaps THEN remove_ignored THEN the per-lint map;
+   cli_lint: --count and the empty case return BEFORE remove_overlaps, then one label per lint;
+   CurrencyPlacement: three generators (pairs, first triple, windows of four) then remove_overlaps;
+   merge_linters!: extend per sub-linter then remove_overlaps), and the census of callers is the known one. *)
+Open Scope string_scope.
+Import ListNotations.
+Definition expected_skeletons : list (string * list string) := [
+  ("wasm_lint", ["lint_group"; "remove_overlaps"; "remove_ignored"; "map_each"]);
+  ("cli_lint", ["lint_group"; "count_len_return"; "empty_return"; "remove_overlaps"; "label_each"]);
+  ("currency_placement", ["new"; "extend_ab"; "extend_ac"; "extend_ac"; "remove_overlaps"; "return"]);
+  ("merge_linters_macro", ["new"; "extend_sub"; "remove_overlaps"; "return"])
+].
+Definition expected_census : list (string * nat) := [
+  ("harper-cli/src/main.rs", 1);
+  ("harper-core/src/lib.rs", 1);
+  ("harper-core/src/linting/currency_placement.rs", 1);
+  ("harper-core/src/linting/merge_linters.rs", 1);
+  ("harper-wasm/src/lib.rs", 1)
+].
+Lemma overlap_call_skeletons_ok :
+  overlap_call_skeletons = expected_skeletons /\ overlap_call_census = expected_census.
+Proof. split; vm_compute; reflexivity. Qed.
